@@ -529,6 +529,8 @@ class Canon:
             return self.c(n["e"], d) + "?"
         if k == "Block" and n.get("inl_root"):
             # an inlined helper call: its value is the value of the callee's tail (locals resolve through defs)
+            if n.get("label"):
+                return "%s{..}" % H.short(n.get("inl") or "?")      # several exits: see Index.value_cases
             return self.c(n["expr"], d) if n.get("expr") is not None else "()"
         if k == "Tup":
             return "(" + ", ".join(self.c(a, d) for a in n["elems"]) + ")"
@@ -984,6 +986,53 @@ class Index:
         for lf in leaves:
             conds = sorted(set(pc["cond"] for pc in self.path_conditions(lf) if pc["kind"] in self.CASE_KINDS))
             out.append((conds, canon(lf), lf))
+        return out
+
+    def value_cases(self, n, pos=""):
+        """The values an expression can produce, each with the node where it is produced:
+        branches of if / match, the tail of a block, `break v` out of a loop or labelled block (also the returns of
+        an inlined helper).  `pos` projects tuple members (".1").  -> [(value node or None, site node)]"""
+        n0 = peel(n) if n is not None else None
+        if n0 is None:
+            return []
+        k = n0.get("k")
+        out = []
+        if k in ("Block", "Loop"):
+            if k == "Block" and n0.get("expr") is not None:
+                out += self.value_cases(n0["expr"], pos)
+            for x, _ in H.walk(n0):
+                if x.get("k") == "Break" and x.get("target") == n0.get("id") and x.get("e") is not None:
+                    for v, _site in self.value_cases(x["e"], pos):
+                        out.append((v, x))
+            return out
+        if k == "If" and n0.get("else") is not None:
+            return self.value_cases(n0["then"], pos) + self.value_cases(n0["else"], pos)
+        if k == "Match" and n0.get("src", "match") == "match":
+            for a in n0["arms"]:
+                out += self.value_cases(a["body"], pos)
+            return out
+        if n0.get("ty") == "!":
+            return []
+        v = n0
+        p = pos
+        while p.startswith(".") and v is not None and v.get("k") == "Tup":
+            idx = p.split(".")[1]
+            if not idx.isdigit() or int(idx) >= len(v["elems"]):
+                break
+            v = peel(v["elems"][int(idx)])
+            p = p[len(idx) + 1:]
+        return [(v if not p else None, n0)]
+
+    def local_value_cases(self, lid):
+        """value cases of a local: of its initialiser, or — for `let x;` initialised later — its assignments"""
+        d = self.canon.defs.get(lid)
+        if d is not None and d[0] == "let":
+            return self.value_cases(d[1], d[2])
+        out = []
+        for x, _ in H.walk(self.root):
+            if x.get("k") == "Assign" and peel(x["l"]).get("k") == "Local" and peel(x["l"])["lid"] == lid:
+                for v, _s in self.value_cases(x["r"]):
+                    out.append((v, x))
         return out
 
     GUARD_KINDS = ("guard", "guard-else", "let-else", "arm-exit", "ok_or")
